@@ -8,6 +8,7 @@
 #include <algorithm>
 
 #include "runner.h"
+#include "statics.h"
 #include "vsched.h"
 #include "trap.h"
 
@@ -187,6 +188,8 @@ void execC18(const C18Case &cs, C18Outcome &out) {
         }
 
     trapTake();
+    trapDisarm();
+    staticsRestore();  // pristine library statics at the start of every run
     trapArm();
 
     // ---- phase A: attribution and sequential reference (DESIGN.md §2.9) ----
@@ -253,12 +256,21 @@ void execC18(const C18Case &cs, C18Outcome &out) {
     // ---- phase B: the same calls, concurrently, under the scheduler --------
     heapReset(cs.knobs);
     std::vector<OpHeapCtx> ctxs((size_t)T);
+    // (task, op index, global step at op begin): lets a trap taken in the
+    // concurrent phase be attributed to the operation that was executing
+    struct OpSpan {
+        int task, op;
+        int64_t from, to;
+    };
+    std::vector<OpSpan> spans;
     TaskBody body = [&](int t) {
         for (size_t i = 0; i < cs.progs[t].size(); i++) {
             OpSlot &s = slots[t][i];
             if (s.dropped) continue;
             const Op &op = cs.progs[t][i];
             schedOpBoundary();
+            spans.push_back({t, (int)i, schedGlobalStep(), -1});
+            size_t spanIdx = spans.size() - 1;
             ExecOpts eo;
             eo.shared = s.shared;
             OpHeapCtx &c = ctxs[(size_t)t];
@@ -276,6 +288,8 @@ void execC18(const C18Case &cs, C18Outcome &out) {
             s.allocs = c.allocCount;
             for (int k = 1; k < F_KINDS; k++) s.fired[k] = c.fired[k];
             s.heapV = c.violations;
+            spans[spanIdx].to = schedGlobalStep();
+            trapRearm();
         }
         schedOpBoundary();
     };
@@ -289,9 +303,13 @@ void execC18(const C18Case &cs, C18Outcome &out) {
     for (auto &tr : traps) {
         int t = tr.task >= 0 && tr.task < T ? tr.task : 0;
         Op dummy;
-        const Op &op = cs.progs[t].empty() ? dummy : cs.progs[t][0];
+        int opIdx = -1;
+        for (auto &sp : spans)
+            if (sp.task == t && tr.step >= sp.from && (sp.to < 0 || tr.step <= sp.to)) opIdx = sp.op;
+        const Op &op = opIdx >= 0 ? cs.progs[t][(size_t)opIdx]
+                                  : (cs.progs[t].empty() ? dummy : cs.progs[t][0]);
         out.violations.push_back(mkViolation(
-            "I1-static-write", op, t, -1,
+            "I1-static-write", op, t, opIdx,
             "store to library-owned static storage '" + trapSymbol(tr.addr) +
                 "' by task " + std::to_string(tr.task) + " at global step " +
                 std::to_string(tr.step) + " of the concurrent phase",
